@@ -39,10 +39,22 @@ func bidOf(b types.BlockID) *lib.BID {
 	return &lib.BID{Hash: b.Hash, PartTotal: b.PartSetHeader.Total, PartHash: b.PartSetHeader.Hash}
 }
 
+// genBlockID draws complete block ids and, less often, the incomplete shapes that still pass
+// BlockID.ValidateBasic / Commit.ValidateBasic (hash present, part-set header missing or partial): their
+// canonical form is NOT the nil block id, so nothing signed for nil may count for them.
 func genBlockID(t *rapid.T, label string) types.BlockID {
 	h := rapid.SliceOfN(rapid.Byte(), 32, 32).Draw(t, label+".hash")
 	ph := rapid.SliceOfN(rapid.Byte(), 32, 32).Draw(t, label+".phash")
-	return types.BlockID{Hash: h, PartSetHeader: types.PartSetHeader{Total: rapid.Uint32Range(1, 5).Draw(t, label+".total"), Hash: ph}}
+	id := types.BlockID{Hash: h, PartSetHeader: types.PartSetHeader{Total: rapid.Uint32Range(1, 5).Draw(t, label+".total"), Hash: ph}}
+	switch rapid.SampledFrom([]string{"complete", "complete", "complete", "complete", "complete", "no-psh", "psh-total-only", "psh-hash-only"}).Draw(t, label+".shape") {
+	case "no-psh":
+		id.PartSetHeader = types.PartSetHeader{}
+	case "psh-total-only":
+		id.PartSetHeader.Hash = nil
+	case "psh-hash-only":
+		id.PartSetHeader.Total = 0
+	}
+	return id
 }
 
 var slotKinds = []string{
@@ -62,7 +74,15 @@ type scenario struct {
 	blockID types.BlockID
 	commit  *types.Commit
 	kinds   []string
+	round   int32
+	other   types.BlockID
+	ts      []time.Time // per slot
 }
+
+// nonCounting are the slot kinds whose signature is genuine for SOME other context (the realistic forgery: take
+// what the validators really signed elsewhere and relabel it).
+var nonCounting = []string{"nil-flag-sig-for-block", "commit-flag-sig-for-nil", "wrong-chain", "wrong-height", "wrong-round",
+	"wrong-block", "wrong-psh", "wrong-type", "repeat-signer", "ts-mismatch", "wrong-signer-member"}
 
 func sign(key int, s signed, ts time.Time) []byte {
 	return stded.Sign(stded.PrivateKey(lib.Key(key)), lib.CanonVoteBytes(s.chain, s.typ, s.height, s.round, s.id, ts))
@@ -81,7 +101,13 @@ func genScenario(t *rapid.T, maxN int) scenario {
 	other := genBlockID(t, "otherbid")
 	base := time.Unix(1_600_000_000, 0).UTC()
 
-	mode := rapid.SampledFrom([]string{"mixed", "mixed", "threshold", "allgood-some-absent"}).Draw(t, "mode")
+	sc.round, sc.other = round, other
+	mode := rapid.SampledFrom([]string{"mixed", "mixed", "threshold", "allgood-some-absent", "wholesale"}).Draw(t, "mode")
+	wholesale := ""
+	if mode == "wholesale" {
+		// every validator's genuine signature from ONE other context, relabelled for this block
+		wholesale = rapid.SampledFrom(nonCounting).Draw(t, "wholesale")
+	}
 	length := n
 	if mode == "mixed" {
 		length = n + rapid.SampledFrom([]int{0, 0, 0, 0, 0, 0, -1, 1}).Draw(t, "dlen")
@@ -91,6 +117,7 @@ func genScenario(t *rapid.T, maxN int) scenario {
 	}
 	sigs := make([]types.CommitSig, length)
 	sc.kinds = make([]string, length)
+	sc.ts = make([]time.Time, length)
 
 	// threshold mode: choose a subset whose power is as close as possible to 2/3 from a drawn side
 	var inSubset []bool
@@ -133,12 +160,18 @@ func genScenario(t *rapid.T, maxN int) scenario {
 			}
 		case "allgood-some-absent":
 			kind = rapid.SampledFrom([]string{"good", "good", "good", "absent", "nil-valid"}).Draw(t, "kind")
+		case "wholesale":
+			kind = wholesale
+			if rapid.IntRange(0, 7).Draw(t, "hole") == 0 {
+				kind = rapid.SampledFrom([]string{"absent", "good", "nil-valid"}).Draw(t, "kind")
+			}
 		}
 		if i >= n && (kind != "absent") {
 			kind = "extra-outsider"
 		}
 		sc.kinds[i] = kind
 		ts := base.Add(time.Duration(rapid.Int64Range(0, 1_000_000_000_000).Draw(t, "ts")))
+		sc.ts[i] = ts
 		right := signed{sc.chain, sc.height, round, byte(tmproto.PrecommitType), bidOf(sc.blockID)}
 		key := -1
 		var addr []byte
@@ -226,6 +259,63 @@ func genScenario(t *rapid.T, maxN int) scenario {
 	}
 	sc.commit = types.NewCommit(sc.height, round, sc.blockID, sigs)
 	return sc
+}
+
+// warmUp verifies, through all three entry points and BEFORE the verification under test, genuine commits of the same
+// validators at the same timestamps for other contexts (another block, nil, another round / height / chain): the
+// signatures the non-counting slot kinds reuse. The property is a function of the arguments alone, so nothing that
+// was verified earlier in the process may change an outcome (caches keyed too coarsely would).
+func warmUp(t *rapid.T, sc scenario) []string {
+	n := len(sc.vs.Keys)
+	var done []string
+	for _, ctx := range []string{"other-block", "nil", "round+1", "height+1", "height-1", "chain-x"} {
+		if !rapid.Bool().Draw(t, "warm."+ctx) {
+			continue
+		}
+		chain, height, round, id := sc.chain, sc.height, sc.round, sc.blockID
+		flag := types.BlockIDFlagCommit
+		switch ctx {
+		case "other-block":
+			id = sc.other
+		case "nil":
+			flag = types.BlockIDFlagNil
+		case "round+1":
+			round++
+		case "height+1":
+			height++
+		case "height-1":
+			height--
+		case "chain-x":
+			chain += "x"
+		}
+		if height < 1 {
+			continue
+		}
+		sigs := make([]types.CommitSig, n)
+		for i := 0; i < n; i++ {
+			ts := time.Unix(1_600_000_000, 0).UTC()
+			if i < len(sc.ts) {
+				ts = sc.ts[i]
+			}
+			s := signed{chain, height, round, byte(tmproto.PrecommitType), bidOf(id)}
+			if flag == types.BlockIDFlagNil {
+				s.id = nil
+			}
+			sigs[i] = types.CommitSig{BlockIDFlag: flag, ValidatorAddress: sc.vs.Set.Validators[i].Address, Timestamp: ts, Signature: sign(sc.vs.Keys[i], s, ts)}
+		}
+		c := types.NewCommit(height, round, id, sigs)
+		errF := sc.vs.Set.VerifyCommit(chain, id, height, c)
+		errL := sc.vs.Set.VerifyCommitLight(chain, id, height, c)
+		errT := sc.vs.Set.VerifyCommitLightTrusting(chain, c, tmmath.Fraction{Numerator: 1, Denominator: 3})
+		if flag == types.BlockIDFlagCommit && (errF != nil || errL != nil || errT != nil) {
+			t.Fatalf("genuine commit of all validators (context %s) rejected: full=%v light=%v trusting=%v", ctx, errF, errL, errT)
+		}
+		if flag == types.BlockIDFlagNil && (errF == nil || errL == nil || errT == nil) {
+			t.Fatalf("commit made of nil precommits only accepted: full=%v light=%v trusting=%v", errF, errL, errT)
+		}
+		done = append(done, ctx)
+	}
+	return done
 }
 
 func seq(n int) []int {
@@ -353,6 +443,7 @@ func TestFullAndLight(t *testing.T) {
 			blockID.PartSetHeader.Total == sc.commit.BlockID.PartSetHeader.Total &&
 			string(blockID.PartSetHeader.Hash) == string(sc.commit.BlockID.PartSetHeader.Hash)
 
+		warmed := warmUp(t, sc)
 		errFull := sc.vs.Set.VerifyCommit(chain, blockID, height, sc.commit)
 		errLight := sc.vs.Set.VerifyCommitLight(chain, blockID, height, sc.commit)
 
@@ -361,6 +452,12 @@ func TestFullAndLight(t *testing.T) {
 			fmt.Sprintf("allvalid:%v", ref.allValid)}
 		if nearThreshold(ref, 2, 3) {
 			cls = append(cls, "near-threshold")
+		}
+		if len(warmed) > 0 {
+			cls = append(cls, "after-verifying-related-commits")
+		}
+		if !sc.blockID.IsComplete() {
+			cls = append(cls, "incomplete-block-id")
 		}
 		lib.Case("TestFullAndLight", lib.FP(sc.kinds, sc.profile, len(sc.vs.Keys), ref.tally, ref.total, chain == sc.chain, headerOK), nontrivial, cls...)
 		if nontrivial && lib.WantSample("TestFullAndLight") {
@@ -497,6 +594,7 @@ func TestTrusting(t *testing.T) {
 			// outside int64: part of the callers' domain only if the light client's own validation lets it through
 			inDomain = light.ValidateTrustLevel(level) == nil
 		}
+		warmed := warmUp(t, sc)
 		err := trusted.VerifyCommitLightTrusting(chain, sc.commit, level)
 
 		num, den := new(big.Int).SetUint64(level.Numerator), new(big.Int).SetUint64(level.Denominator)
@@ -508,7 +606,8 @@ func TestTrusting(t *testing.T) {
 		}
 		nontrivial := ref.nonCount > 0 || near
 		lib.Case("TestTrusting", lib.FP(sc.kinds, sc.profile, tkind, n, ref.tally, ref.total, level.Numerator, level.Denominator), nontrivial,
-			"fraction:"+fkind, "trusted:"+tkind, fmt.Sprintf("accept:%v", err == nil), fmt.Sprintf("indomain:%v", inDomain))
+			"fraction:"+fkind, "trusted:"+tkind, fmt.Sprintf("accept:%v", err == nil), fmt.Sprintf("indomain:%v", inDomain),
+			fmt.Sprintf("after-verifying-related-commits:%v", len(warmed) > 0), fmt.Sprintf("complete-block-id:%v", sc.blockID.IsComplete()))
 		if nontrivial && lib.WantSample("TestTrusting") {
 			d := describe(sc)
 			d["trusted"], d["level"], d["ref_tally"], d["total"], d["err"] = tkind, level.String(), ref.tally.String(), ref.total.String(), fmt.Sprint(err)
